@@ -1,36 +1,60 @@
 //! C14 (wall-clock smoke, implementation-vs-oracle): the real hooked calls on a live event loop
-//! from a plain thread, no interception. body: `<call> <micros>`   out: `within` | `early <ns>` | `late <ns>`
+//! from a plain thread, or (`co<loops>`) from inside a task of a runtime with that many loops; no interception.
+//! body: `<call> <micros> [co<loops>]`   out: `within` | `early <ns>` | `late <ns>` | `lost` (the task never came back)
 use crate::rng::Rng;
 use std::time::Instant;
 
 pub fn gen(r: &mut Rng, _thorough: bool) -> String {
     let call = *r.pick(&["usleep", "nanosleep", "poll", "select", "sleep0"]);
     let us = *r.pick(&[0u64, 300, 1000, 2500, 3000, 12_000, 20_000, 35_000]);
-    format!("{call} {us}")
+    match r.below(3) { 0 => format!("{call} {us}"), 1 => format!("{call} {us} co1"), _ => format!("{call} {us} co{}", r.range(2, 4)) }
 }
 
 pub fn exec(body: &str, emit: &mut dyn FnMut(&str)) {
-    use open_coroutine_core::syscall as sc;
     let t: Vec<&str> = body.split_whitespace().collect();
-    if t.len() != 2 { emit("BADCASE"); return; }
+    if t.len() != 2 && t.len() != 3 { emit("BADCASE"); return; }
     let us: u64 = t[1].parse().unwrap();
-    open_coroutine_core::net::EventLoops::init(&open_coroutine_core::config::Config::single());
+    let call = t[0].to_string();
+    let loops: usize = if t.len() == 3 { t[2].trim_start_matches("co").parse().unwrap_or(1) } else { 0 };
+    let mut cfg = open_coroutine_core::config::Config::single();
+    _ = cfg.set_event_loop_size(loops.max(1)).set_hook(false);
+    open_coroutine_core::net::EventLoops::init(&cfg);
+    if loops == 0 { emit(&timed(&call, us)); return; }
+    // inside a task; two more tasks that yield keep the other loops interested in stealing
+    static OUT: std::sync::Mutex<Option<String>> = std::sync::Mutex::new(None);
+    for _ in 0..2 {
+        let h = open_coroutine_core::net::EventLoops::submit_task(None, |_| {
+            for _ in 0..200 { if let Some(s) = open_coroutine_core::scheduler::SchedulableSuspender::current() { s.suspend(); } }
+            Some(0)
+        }, None, None);
+        std::mem::forget(h);
+    }
+    let h = open_coroutine_core::net::EventLoops::submit_task(None, move |_| { *OUT.lock().unwrap() = Some(timed(&call, us)); Some(0) }, None, None);
+    std::mem::forget(h);
+    let t0 = Instant::now();
+    while OUT.lock().unwrap().is_none() && t0.elapsed() < std::time::Duration::from_secs(5) { std::thread::sleep(std::time::Duration::from_millis(2)); }
+    let r = OUT.lock().unwrap().clone();
+    emit(&r.unwrap_or_else(|| "lost".to_string()));
+}
+
+fn timed(call: &str, us: u64) -> String {
+    use open_coroutine_core::syscall as sc;
     let start = Instant::now();
     let mut req_ns = us * 1000;
     unsafe {
-        match t[0] {
+        match call {
             "usleep" => { let _ = sc::usleep(None, us as u32); }
             "nanosleep" => { let rq = libc::timespec { tv_sec: 0, tv_nsec: (us * 1000) as i64 }; let _ = sc::nanosleep(None, &rq, std::ptr::null_mut()); }
             "poll" => { let ms = (us / 1000) as i32; req_ns = ms as u64 * 1_000_000; let _ = sc::poll(None, std::ptr::null_mut(), 0, ms); }
             "select" => { let mut tv = libc::timeval { tv_sec: 0, tv_usec: us as i64 }; let _ = sc::select(None, 0, std::ptr::null_mut(), std::ptr::null_mut(), std::ptr::null_mut(), &mut tv); }
             "sleep0" => { req_ns = 0; let _ = sc::sleep(None, 0); }
-            _ => { emit("BADCALL"); return; }
+            _ => { return "BADCALL".to_string(); }
         }
     }
     let el = start.elapsed().as_nanos() as u64;
-    // generous scheduling slack: 10 ms per slice plus 100 ms
-    let slack = 100_000_000 + (req_ns / 10_000_000 + 1) * 10_000_000;
-    if el < req_ns { emit(&format!("early {}", req_ns - el)); }
-    else if el > req_ns + slack { emit(&format!("late {}", el - req_ns)); }
-    else { emit("within"); }
+    // generous scheduling slack: 10 ms per slice plus 300 ms
+    let slack = 300_000_000 + (req_ns / 10_000_000 + 1) * 10_000_000;
+    if el < req_ns { format!("early {}", req_ns - el) }
+    else if el > req_ns + slack { format!("late {}", el - req_ns) }
+    else { "within".to_string() }
 }
